@@ -70,3 +70,82 @@ package mr
 //@   prop C07
 //@   requires opts != nil
 //@   ensures [at-least-one] opts.workers >= 1 && (workers >= 1 ==> opts.workers == workers)
+
+// ---------------- sources, wrappers and options (C07) ----------------
+// buildSource: the generator runs in its own goroutine; when it returns OR panics the source is closed (so the
+// mappers stop waiting), and a panic is handed - once - to the panic channel for re-raising in the caller.
+//@ func buildSource
+//@   prop C07
+//@   ensures [one-generator-goroutine] calls("go buildSource$1") == 1 && result != nil
+//@ func buildSource$1
+//@   prop C07
+//@   opaque write
+//@   may-panic generate
+//@   nopanic
+//@   ensures [generated-into-the-source] calls(generate, source) == 1
+//@   ensures [source-closed-always] calls(on("close", source)) == 1 && before(generate, on("close", source))
+//@   ensures [panic-forwarded-once] (calls(panicChan.write) == 1) == panicked(generate) && calls(write) <= 1
+// drain: consumes until the channel is closed.
+//@ func drain
+//@   prop C07
+//@   loop 1 iteration-ensures [consumes] calls(on("recv", channel)) == 1
+// MapReduce / MapReduceChan: a fresh panic channel per call; the source is the generator's (resp. the caller's).
+//@ func MapReduce
+//@   prop C07
+//@   opaque buildSource, mapReduceWithPanicChan
+//@   ensures [wired] calls(buildSource) == 1 && arg(buildSource, 0) == generate && calls(mapReduceWithPanicChan) == 1 && arg(mapReduceWithPanicChan, 0) == ret(buildSource) && arg(mapReduceWithPanicChan, 1) == arg(buildSource, 1) && fresh(arg(buildSource, 1)) && arg(mapReduceWithPanicChan, 2) == mapper && arg(mapReduceWithPanicChan, 3) == reducer && arg(mapReduceWithPanicChan, 4) == opts && result0 == ret(mapReduceWithPanicChan, 0) && result1 == ret(mapReduceWithPanicChan, 1)
+//@ func MapReduceChan
+//@   prop C07
+//@   opaque mapReduceWithPanicChan
+//@   ensures [wired] calls(mapReduceWithPanicChan) == 1 && arg(mapReduceWithPanicChan, 0) == source && fresh(arg(mapReduceWithPanicChan, 1)) && arg(mapReduceWithPanicChan, 2) == mapper && arg(mapReduceWithPanicChan, 3) == reducer && result0 == ret(mapReduceWithPanicChan, 0) && result1 == ret(mapReduceWithPanicChan, 1)
+// MapReduceVoid: "no output" is the normal outcome of a void reducer, every other error is the caller's.
+//@ func MapReduceVoid
+//@   prop C07
+//@   opaque MapReduce
+//@   ensures [no-output-is-success] ret(errors.Is) ==> result == nil
+//@   ensures [other-errors-returned] !ret(errors.Is) ==> result == ret(MapReduce, 1)
+//@   ensures [tests-for-no-output] calls(errors.Is, ret(MapReduce, 1), ErrReduceNoOutput) == 1
+//@ func MapReduceVoid$1
+//@   prop C07
+//@   ensures [reducer-gets-pipe-and-cancel] calls(reducer, pipe, cancel) == 1
+//@ func buildOptions
+//@   prop C07
+//@   opaque newOptions
+//@   loop 1 invariant -1 <= rangeindex && rangeindex <= len(opts)
+//@   loop 1 iteration-ensures [each-option-applied-in-order] calls(opt, options) == 1 && opt == at_head(opts[rangeindex + 1])
+//@   ensures [on-fresh-defaults] calls(newOptions) == 1 && result == ret(newOptions)
+//@ func newOptions
+//@   prop C07
+//@   ensures [defaults] result != nil && result.workers == 16 && result.ctx == ret(context.Background)
+//@ func newGuardedWriter
+//@   prop C07
+//@   ensures [fields] result.ctx == ctx && result.channel == channel && result.done == done
+// Finish: every function is one item, run by its own worker; the first error cancels the rest and is returned.
+//@ func Finish
+//@   prop C07
+//@   opaque MapReduceVoid, WithWorkers
+//@   ensures [none] len(fns) == 0 ==> result == nil && calls(MapReduceVoid) == 0
+//@   ensures [one-worker-per-function] len(fns) > 0 ==> calls(MapReduceVoid) == 1 && calls(WithWorkers, len(fns)) == 1 && result == ret(MapReduceVoid)
+//@ func Finish$1
+//@   prop C07
+//@   loop 1 invariant -1 <= rangeindex && rangeindex <= len(fns)
+//@   loop 1 iteration-ensures [each-function-generated-once] calls(on("send", source)) == 1
+//@ func Finish$2
+//@   prop C07
+//@   may-panic fn
+//@   ensures [run-once-error-cancels] calls(fn) == 1 && (calls(cancel) == 1) == (ret(fn) != nil) && (calls(cancel) == 1 ==> arg(cancel, 0) == ret(fn))
+// ForEach: returns only when the mappers' collector has been closed (all mappers done); a panic of the generator
+// or a mapper is re-raised in the calling goroutine.
+//@ func ForEach
+//@   prop C07
+//@   opaque buildOptions, buildSource
+//@   loop 1 iteration-ensures [waits-on] calls(on("recv", collector)) == 1 && ret(on("recv", collector), 1)
+//@   ensures [returns-when-collector-closed] calls(on("recv", local(collector))) == 1 && !ret(on("recv", local(collector)), 1)
+//@   panic-ensures [re-raised-from-panic-channel] calls(on("recv", local(panicChan).channel)) == 1
+//@ func ForEach$1
+//@   prop C07
+//@   ensures [item-to-mapper] calls(mapper, item) == 1
+//@ func FinishVoid$2
+//@   prop C07
+//@   may-panic fn
+//@   ensures [run-once] calls(fn) == 1
